@@ -168,6 +168,38 @@ fn matrix_program(mut i: u64) -> String {
     format!("(h : (a : type) -> (c : type) -> ({shape}) -> int) => {binders}h {} {} ({lam})", tname(ti), tname(tj))
 }
 
+// An explicit program whose verdict comes from the reference: ill-typed must be rejected with a
+// diagnostic; whatever is accepted has its elaborated term judged as well.
+pub fn judge_against_reference(ctx: &mut Ctx, m: &H, kind: &str, src: &str, tag: &str) {
+        // gram first: what it turns away before type checking (scoping, definition order -
+        // a perturbation can make a definition refer to itself) needs no reference verdict,
+        // and R-core may not terminate on it
+        let obs = check_text(ctx, src, false, tag);
+        if !matches!(obs.front, Front::Accepted | Front::TypeErr(_)) {
+            return;
+        }
+        let verdict = judge_source(m);
+        match (&verdict, &obs.front) {
+            (SourceVerdict::IllTyped(why), Front::Accepted) => {
+                viol(ctx, &format!("accepts-ill-typed:{kind}"), &format!("the reference checker rejects this explicit program ({why}) but gram accepts it"), src, &obs);
+            }
+            (SourceVerdict::IllScoped(_), Front::Accepted) => {
+                viol(ctx, "accepts-ill-scoped", "gram accepts an ill-scoped program", src, &obs);
+            }
+            (SourceVerdict::IllTyped(_), Front::TypeErr(m)) => {
+                ctx.count(&format!("rejected-as-expected:{kind}"));
+                ctx.nontrivial(hash_str(src));
+                if m.is_empty() {
+                    viol(ctx, "rejection-without-diagnostic", "type_check returned Err with no diagnostics", src, &obs);
+                }
+            }
+            (SourceVerdict::WellTyped(..), Front::Accepted) => ctx.count(&format!("still-well-typed:{kind}")),
+            (SourceVerdict::WellTyped(..), Front::TypeErr(_)) => ctx.count("perturbed-well-typed-but-rejected(C05)"),
+            (SourceVerdict::Unknown, _) => ctx.inconclusive("reference-fuel"),
+            _ => {}
+        }
+}
+
 impl Prop for C03P {
     fn id(&self) -> &'static str {
         "C03"
@@ -180,10 +212,11 @@ impl Prop for C03P {
                 sec("inferred-programs", tier.pick(10_000, 200_000)),
                 sec("perturbed-explicit-programs", tier.pick(50_000, 500_000)),
                 sec("perturbed-inferred-programs", tier.pick(50_000, 500_000)),
+                sec("near-miss-coercions", tier.pick(40_000, 400_000)),
                 crate::fw::sec_ex("polymorphic-instantiation-matrix", matrix_total().div_ceil(64)),
                 crate::fw::sec_ex("small-programs-exhaustive", crate::gen_small::total_upto(tier.pick(5, 6)).div_ceil(SMALL_BLOCK)),
             ],
-            "every (elaborated term, reported type) pair returned by type_check on generated explicit and inferred programs, on the corpus, on single-point perturbations of explicit and of inferred programs (18 perturbation kinds aimed at the side conditions of each typing rule and at the definition-order check) and on every source program of at most 5 (quick) / 6 (thorough) nodes over the full syntax is judged by an independent NbE checker; every perturbed explicit program the reference judges ill-typed as source must be rejected with at least one diagnostic; a matrix of 6 360 calls `h ti tj (lambda)` of a higher-order polymorphic parameter under 1-4 type binders (5 shapes x 12 lambda variants with written or omitted binder annotations x every pair of type arguments, with and without spacer binders) is checked the same way; non-trivial = distinct accepted program judged, or distinct ill-typed program rejected",
+            "every (elaborated term, reported type) pair returned by type_check on generated explicit and inferred programs, on the corpus, on single-point perturbations of explicit and of inferred programs (18 perturbation kinds aimed at the side conditions of each typing rule and at the definition-order check) and on every source program of at most 5 (quick) / 6 (thorough) nodes over the full syntax is judged by an independent NbE checker; every perturbed explicit program the reference judges ill-typed as source must be rejected with at least one diagnostic; so must every ill-typed near-miss coercion (a value passed from a type with type-level computation in it - conditionals on closed or stuck comparisons with boundary-equal operands, redexes, groups of 1-3 aliases, calls of type families incl. constant ones - to that type after one or two edits; closed, through a function, or under an integer parameter instantiated afterwards); a matrix of 6 360 calls `h ti tj (lambda)` of a higher-order polymorphic parameter under 1-4 type binders (5 shapes x 12 lambda variants with written or omitted binder annotations x every pair of type arguments, with and without spacer binders) is checked the same way; non-trivial = distinct accepted program judged, or distinct ill-typed program rejected",
         );
         p.assumptions = vec![
             "R-core (harness/src/core.rs) implements DESIGN.md A.5/A.6; an unsolved hole left in an elaborated term is an opaque constant of type `type`".into(),
@@ -240,6 +273,13 @@ impl Prop for C03P {
                     check_text(ctx, &src, true, "matrix");
                 }
             }
+            "near-miss-coercions" => {
+                let mut r = Rng::for_case(ctx.seed, 6, idx);
+                let c = crate::coerce::gen_coercion(&mut r, idx % 3 == 2);
+                let src = print(&c.h, &Style::varied(&mut r), idx).text;
+                ctx.count(&format!("coercion:{}", c.shape));
+                judge_against_reference(ctx, &c.h, "near-miss-coercion", &src, "coercion");
+            }
             "perturbed-inferred-programs" => {
                 // ill-typed programs with omitted annotations: whatever gram lets through has its
                 // elaborated term judged by the reference (no verdict on the source: R-core does
@@ -256,33 +296,7 @@ impl Prop for C03P {
                 let p = gen_program(&mut r, Mode::Explicit);
                 let Some((m, kind)) = perturb(&p.h, &mut r) else { return };
                 let src = print(&m, &Style::varied(&mut r), idx).text;
-                // gram first: what it turns away before type checking (scoping, definition order -
-                // a perturbation can make a definition refer to itself) needs no reference verdict,
-                // and R-core may not terminate on it
-                let obs = check_text(ctx, &src, false, "perturbed");
-                if !matches!(obs.front, Front::Accepted | Front::TypeErr(_)) {
-                    return;
-                }
-                let verdict = judge_source(&m);
-                match (&verdict, &obs.front) {
-                    (SourceVerdict::IllTyped(why), Front::Accepted) => {
-                        viol(ctx, &format!("accepts-ill-typed:{kind}"), &format!("the reference checker rejects this explicit program ({why}) but gram accepts it"), &src, &obs);
-                    }
-                    (SourceVerdict::IllScoped(_), Front::Accepted) => {
-                        viol(ctx, "accepts-ill-scoped", "gram accepts an ill-scoped program", &src, &obs);
-                    }
-                    (SourceVerdict::IllTyped(_), Front::TypeErr(m)) => {
-                        ctx.count(&format!("rejected-as-expected:{kind}"));
-                        ctx.nontrivial(hash_str(&src));
-                        if m.is_empty() {
-                            viol(ctx, "rejection-without-diagnostic", "type_check returned Err with no diagnostics", &src, &obs);
-                        }
-                    }
-                    (SourceVerdict::WellTyped(..), Front::Accepted) => ctx.count(&format!("still-well-typed:{kind}")),
-                    (SourceVerdict::WellTyped(..), Front::TypeErr(_)) => ctx.count("perturbed-well-typed-but-rejected(C05)"),
-                    (SourceVerdict::Unknown, _) => ctx.inconclusive("reference-fuel"),
-                    _ => {}
-                }
+                judge_against_reference(ctx, &m, kind, &src, "perturbed");
             }
             _ => {}
         }
@@ -294,6 +308,11 @@ impl Prop for C03P {
                 let mut r = Rng::for_case(seed, if explicit { 1 } else { 2 }, idx);
                 let p = gen_program(&mut r, if explicit { Mode::Explicit } else { Mode::Inferred });
                 print(&p.h, &Style::varied(&mut r), idx).text
+            }
+            "near-miss-coercions" => {
+                let mut r = Rng::for_case(seed, 6, idx);
+                let c = crate::coerce::gen_coercion(&mut r, idx % 3 == 2);
+                print(&c.h, &Style::varied(&mut r), idx).text
             }
             "perturbed-explicit-programs" => {
                 let mut r = Rng::for_case(seed, 3, idx);
